@@ -512,7 +512,20 @@ class Impl:
                 os.remove(exe)
             except OSError:
                 pass
-        return [canon(l) for l in lines]
+        out = [canon(l) for l in lines]
+        st = self.ctx.cov.setdefault('outcomes', {})
+        for o in out:
+            ev, fin = split_tr(o)
+            key = 'normal' if fin.startswith('N@') else 'died (Uncaught, exit status 1)' if re.match(r'^D\d+,\d+$', fin) \
+                else 'abort (buffer overflow)' if fin == 'ABORT' else 'other'
+            st[key] = st.get(key, 0) + 1
+            nh = sum(1 for e in ev if e[0] == 'h')
+            hk = 'handler entries: %s' % ('0' if nh == 0 else '1' if nh == 1 else '2-4' if nh <= 4 else '5+')
+            st[hk] = st.get(hk, 0) + 1
+            dm = max([int(e.split('@')[1]) for e in ev if '@' in e] or [0])
+            dk = 'max depth seen: %s' % ('0' if dm == 0 else '1-2' if dm <= 2 else '3-9' if dm <= 9 else '10-99' if dm <= 99 else '100+')
+            st[dk] = st.get(dk, 0) + 1
+        return out
 
 
 # ----------------------------------------------------------------------------- the check
